@@ -99,7 +99,8 @@ fn now_ms() -> u64 {
 
 /// Per-case hang monitor: a case that runs longer than `limit` ends the
 /// process. When the tracking allocator has recorded a memory violation by
-/// then (block freed while the kernel held it, double free), the hang is the
+/// then (block freed while the kernel held it, double free), or the case's own
+/// oracle has already reported a violation, the hang is the
 /// aftermath of that violation (the code under test keeps using a freed
 /// operation state whose mutex is still locked) and is reported as such;
 /// otherwise it is an infrastructure problem (exit 2 in the end).
@@ -112,7 +113,10 @@ pub fn start_hang_monitor(limit: Duration, marker: Option<PathBuf>, replay_of: O
             if started == 0 || now_ms().saturating_sub(started) < limit.as_millis() as u64 {
                 continue;
             }
-            let events = crate::track::describe_events();
+            let mut events = crate::track::describe_events();
+            if let Some(v) = crate::common::PENDING_VIOLATION.lock().unwrap_or_else(|e| e.into_inner()).clone() {
+                events.insert(0, format!("the check had already reported [{v}]"));
+            }
             let text = if events.is_empty() { String::new() } else { format!("the case did not return within {limit:?} after: {}", events.join("; ")) };
             if let Some(m) = &marker {
                 let _ = std::fs::write(m, &text);
@@ -122,7 +126,7 @@ pub fn start_hang_monitor(limit: Duration, marker: Option<PathBuf>, replay_of: O
                     eprintln!("infrastructure error: the case did not return within {limit:?} (no memory violation recorded)");
                     std::process::exit(2);
                 }
-                println!("failure: sig={id}:hang-after-memory-violation {text}");
+                println!("failure: sig={id}:hang-after-violation {text}");
                 println!("VIOLATION property={id} replay={}", path.display());
                 std::process::exit(1);
             }
@@ -135,6 +139,7 @@ const CASE_LIMIT: Duration = Duration::from_secs(45);
 
 /// Run one case with panic containment.
 pub fn run_case<P: Property>(case: &P::Case, ctx: &mut Ctx) {
+    *crate::common::PENDING_VIOLATION.lock().unwrap_or_else(|e| e.into_inner()) = None;
     CASE_CLOCK.store(now_ms(), std::sync::atomic::Ordering::Relaxed);
     let r = catch(|| P::run(case, ctx));
     CASE_CLOCK.store(0, std::sync::atomic::Ordering::Relaxed);
@@ -506,7 +511,7 @@ pub fn parent<P: Property>(tier: Tier) -> i32 {
                 let dst = dir.join(format!("{}-hang-{:016x}.json", P::ID, fnv(&text)));
                 let _ = std::fs::write(&dst, &text);
                 let what = std::fs::read_to_string(out.with_extension("hang")).unwrap_or_default();
-                violations.push(ShardViolation { sig: format!("{}:hang-after-memory-violation", P::ID), msg: what, replay: dst.to_string_lossy().into_owned() });
+                violations.push(ShardViolation { sig: format!("{}:hang-after-violation", P::ID), msg: what, replay: dst.to_string_lossy().into_owned() });
             }
             Some(s) => {
                 // The worker died (signal or abort): crash containment. The
